@@ -167,13 +167,14 @@ CLAIMED.update({
             "watcher {RPC, Electrum}, collects the deadlock classes, checks the design repaired by three fixes deadlock-free (thorough: every handler returns under weak fairness) and exports one schedule per class "
             "(configuration, outcome, first mover). Each schedule runs on the REAL SwapService with the real RPC and LWK/Electrum watchers under gate control with a watchdog (goroutine dump: handlers still in "
             "Mutex.Lock / RWMutex / channel send after the grace period); LocksTrace.tla validates start/return matching and replays every run on the specification (observed position of every process must be allowed).",
-            "One swap plus one new swap; Lightning node, wallet, peer and chain servers are simulated; four genuine deadlocks are known findings; the LND watcher is covered by reading only.",
+            "One swap plus one new swap; Lightning node, wallet, peer and chain servers are simulated; the four deadlock classes found were repaired (fixed entries in known_findings.json; their schedules stay as regression schedules); the LND watcher is covered by reading only.",
             "TLA+ lock/program interpreter + TLC interleaving exploration + gate-scheduled real-code runs + TLC trace validation", "7/C18"),
     "C19": ("locks", "exploration",
             "The schedule space and the predicted racing pairs are model-checked: TLC computes on Locks.tla all simultaneously enabled conflicting accesses with disjoint locksets. The verdict comes from the Go race "
             "detector: VERIF_SEED-seeded pairwise (sometimes triple) stress of all entry points on the real code built with -race; every report is mapped to the pair of lock-discipline sites the specification names; "
-            "the detected pairs must be among the predicted ones (otherwise drift, exit 2).",
-            "Absence of a report is evidence only for the schedules that were run; the simulated services add happens-before edges; six root causes (18 signatures) are known findings.",
+            "In stress mode the simulated chain servers answer with seeded latency, and block notifications are stressed repeatedly against handlers that reach the watcher registries while a CSV watch is registered. "
+            "A detected race is a violation whether or not the specification predicts it; an unpredicted one is additionally reported as model drift.",
+            "Absence of a report is evidence only for the schedules that were run; the simulated services add happens-before edges; three signatures (OnTxConfirmed outside the swap mutex; lockSwap reading other swaps' data) are known findings, the other root causes were repaired. Reports whose both sides are harness code are machinery errors.",
             "TLA+ lockset model (TLC) + seeded stress of the real code under the Go race detector, reports matched against the model", "7/C19"),
 })
 
